@@ -76,14 +76,17 @@ def build_harness(race=False, cover=False, name="vh"):
 
 # ------------------------------------------------------------------------- TLC
 _spec_copy = None
+_spec_lock = __import__("threading").Lock()
 
 
 def spec_dir():
     """A scratch copy of /verif/spec (TLC litters its working directory)."""
     global _spec_copy
-    if _spec_copy is None:
-        _spec_copy = os.path.join(workdir(), "spec")
-        shutil.copytree(SPEC, _spec_copy)
+    with _spec_lock:
+        if _spec_copy is None:
+            d = os.path.join(workdir(), "spec")
+            shutil.copytree(SPEC, d)
+            _spec_copy = d
     return _spec_copy
 
 
@@ -95,11 +98,13 @@ def tlc(module, cfg, workers=1, env=None, timeout=3600, xmx="3g", extra=None, si
     _md[0] += 1
     md = os.path.join(workdir(), "md%d_%d" % (os.getpid(), _md[0]))
     e = dict(os.environ)
-    e["JAVA_TOOL_OPTIONS"] = "-Xss512m -Xmx%s" % xmx
     if env:
         e.update(env)
-    cmd = ["timeout", str(timeout), "tlc", "-workers", str(workers), "-metadir", md,
-           "-config", cfg, "-noGenerateSpecTE"]
+    # java is started directly (same class path and GC flag as the `tlc` wrapper) so that -Xss also
+    # sizes the main thread, on which TLC evaluates ASSUMEs and initial states
+    cmd = ["timeout", str(timeout), "java", "-Xss512m", "-Xmx%s" % xmx, "-XX:+UseParallelGC", "-cp",
+           "/opt/veriftools/tla/tla2tools.jar:/opt/veriftools/tla/CommunityModules-deps.jar", "tlc2.TLC",
+           "-workers", str(workers), "-metadir", md, "-config", cfg, "-noGenerateSpecTE"]
     if simulate:
         cmd += ["-simulate", simulate]
     if extra:
